@@ -19,7 +19,7 @@ WORKLOADS = {
     'C09': dict(quick=[('fail', 8, 60, 1600), ('fail', 6, 60, 1570), ('fail', 4, 50, 2100), ('toobig', 4, 40, 6000)],
                 thorough=[('fail', 150, 200, 1600), ('fail', 100, 200, 1570), ('fail', 100, 200, 2100), ('fail', 60, 200, 1545), ('toobig', 60, 100, 6000)]),
     'C10': dict(quick=[('twin', 10, 60, 4000), ('manyobj', 3, 220, 6000), ('fail', 8, 70, 1600), ('longnames', 4, 130, 4000), ('lockorder', 6, 80, 4000), ('inodefull', 1, 1, 12000)], thorough=[('lockorder', 100, 300, 4000), ('twin', 200, 200, 4000), ('manyobj', 30, 400, 6000), ('fail', 60, 120, 1600), ('longnames', 60, 200, 4000), ('inodefull', 2, 1, 12000)]),
-    'C11': dict(quick=[('hostile', 16, 150, 4000), ('hostile', 6, 150, 1600), ('lockorder', 4, 80, 4000)], thorough=[('hostile', 100, 300, 4000), ('hostile', 40, 300, 1600), ('hostile', 20, 300, 40000), ('lockorder', 40, 200, 4000)]),
+    'C11': dict(quick=[('hostile', 16, 150, 4000), ('hostile', 6, 150, 1600), ('lockorder', 4, 80, 4000)], thorough=[('hostile', 200, 400, 4000), ('hostile', 60, 400, 1600), ('hostile', 30, 300, 40000), ('lockorder', 60, 200, 4000)]),
     'C12': dict(quick=[('recycle', 16, 60, 4000), ('recycle', 6, 60, 1700), ('fail', 8, 70, 1600)],
                 thorough=[('recycle', 300, 250, 4000), ('recycle', 150, 250, 1700), ('bigfile', 80, 150, 12000), ('fail', 150, 200, 1600)]),
 }
